@@ -253,6 +253,18 @@ def rule_struct(ctx):
                                 defaulted.add(f["name"])
         for fl in sorted(set(flags)):
             res.violate("%s : %s" % (inst, fl.split(" ")[0]), "%s: %s" % (inst, fl), loc)
+        # `#[serde(into = "Wire", from = "Wire")]`: the generated body converts a clone of the value and serialises the other
+        # type; which fields are written is decided by that type and by the two conversions, not by this body
+        via_conversion = False
+        if a["kind"] == "struct" and not written:
+            for n in walk(sf["body"]):
+                nm_, dd_ = callee_name(c, n)
+                if nm_ in ("into", "from") and n.get("k") in ("Call", "MethodCall"):
+                    via_conversion = True
+        if via_conversion:
+            res.instance("%s : serialised through a conversion" % inst)
+            res.undecided("%s : serialised-through-conversion" % inst, "the type is written and read through another type (`serde(into / from)`): that the conversions carry every field is not followed (fail closed)", loc)
+            continue
         if a["kind"] == "struct":
             fields = a["variants"][0]["fields"]
             named = fields and not fields[0]["name"].isdigit()
